@@ -118,7 +118,7 @@ def main():
                 # the model violates the property under this schedule: confirm on the implementation (same state reached?)
                 pn, path = unsafe
                 obs = R.run_schedule(json.loads(json.dumps(spec)), R.Exact(path), tag=tag, built=built, drain=False)
-                resm = model.run(spec, obs['actions'], obs['orders'], obs['descendants'])
+                resm = model.run(spec, obs['actions'], obs['orders'], obs['descendants'], obs=obs)
                 d = M.compare(obs, resm)
                 violations.append(dict(kind='property',
                                        problems=['all-schedule model checking: a reachable state violates safe_%s (%d states); the real engine %s'
